@@ -34,7 +34,7 @@ Notation vec := (Z -> K).
 Ltac unfold_phys :=
   cbv [drawn_of brel_of drawn_RC brel_RC Yeff drawn_L brel_L drawn_V brel_V drawn_AM brel_AM drawn_I brel_I
        drawn_VCVS brel_VCVS Ac drawn_VCCS brel_VCCS drawn_CCCS brel_CCCS drawn_CCVS brel_CCVS
-       drawn_K brel_K ZM drawn_TF brel_TF drawn_GY brel_GY drawn_TPA brel_TPA tpA
+       drawn_K brel_K ZM MI drawn_TF brel_TF drawn_GY brel_GY drawn_TPA brel_TPA tpA
        drawn_TPY brel_TPY drawn_TR brel_TR drawn_SP brel_SP drawn_RV brel_RV dV01 dV23 thru linpart].
 Lemma vv_zero n : vv (@vzero K) n = f0.
 Proof. unfold vv, vzero. destruct (0 <=? n); reflexivity. Qed.
